@@ -313,7 +313,9 @@ StaleRightsViol(ev) ==
 
 FlavourViol(g2, ev) ==
     LET m == ViewMsk(ev)
-    IN (IF Has(ev, "msk") /\ ev.res = "ok" /\ ev.op = "update"
+    \* (the master key is logged only when it changed: an update that wrongly leaves it as it was is judged on
+    \*  the last logged view, which is the current one)
+    IN (IF ev.res = "ok" /\ ev.op = "update"
         THEN UNION {
                LET rr == m.rights[i]
                    hint == RightHint(m, rr.r)
